@@ -44,14 +44,22 @@ Notation app1 := (apply_op id_of inline_key).
 Notation appl := (apply_ops id_of inline_key).
 
 (* ---- the book ---------------------------------------------------------------- *)
-Definition book_step (b : abook) (o : psop) : abook :=
+Definition book_step (cap : Z) (b : abook) (o : psop) : abook :=
   match o with
   | PUpdateAddrs p old new => a_update b p old new
-  | PAddAddrs p l ttl => a_add b p (map (to_raw p) (filter has_transport l)) ttl
+  | PAddAddrs p l ttl => c_add cap b p (map (to_raw p) (filter has_transport l)) ttl
   | _ => b
   end.
 
-Lemma apply_op_book s o : ps_book (app1 s o) = book_step (ps_book s) o.
+Lemma apply_op_book s o : ps_book (app1 s o) = book_step (ps_pcap s) (ps_book s) o.
+Proof.
+  destruct o; cbn; try reflexivity.
+  - destruct (_ <? _); reflexivity.
+  - destruct (alist_get p (ps_keys s)), (inline_key p); reflexivity.
+  - destruct (_ =? _); reflexivity.
+Qed.
+
+Lemma apply_op_pcap s o : ps_pcap (app1 s o) = ps_pcap s.
 Proof.
   destruct o; cbn; try reflexivity.
   - destruct (_ <? _); reflexivity.
@@ -65,14 +73,19 @@ Proof. reflexivity. Qed.
 Lemma apply_ops_app s l1 l2 : appl s (l1 ++ l2) = appl (appl s l1) l2.
 Proof. unfold apply_ops. apply fold_left_app. Qed.
 
-Lemma apply_ops_book s l : ps_book (appl s l) = fold_left book_step l (ps_book s).
+Lemma apply_ops_pcap s l : ps_pcap (appl s l) = ps_pcap s.
 Proof.
-  revert s. induction l as [|o l IH]; intros s; [reflexivity|].
-  rewrite apply_ops_cons, IH, apply_op_book. reflexivity.
+  revert s. induction l as [|o l IH]; intros s; [reflexivity|]. now rewrite apply_ops_cons, IH, apply_op_pcap.
 Qed.
 
-Lemma book_step_ok b o : book_ok b -> book_ok (book_step b o).
-Proof. destruct o; cbn; intros H; try exact H; [now apply a_update_ok|now apply a_add_ok]. Qed.
+Lemma apply_ops_book s l : ps_book (appl s l) = fold_left (book_step (ps_pcap s)) l (ps_book s).
+Proof.
+  revert s. induction l as [|o l IH]; intros s; [reflexivity|].
+  rewrite apply_ops_cons, IH, apply_op_book, apply_op_pcap. reflexivity.
+Qed.
+
+Lemma book_step_ok cap b o : book_ok b -> book_ok (book_step cap b o).
+Proof. destruct o; cbn; intros H; try exact H; [now apply a_update_ok|now apply c_add_ok]. Qed.
 
 Lemma apply_op_ok s o : book_ok (ps_book s) -> book_ok (ps_book (app1 s o)).
 Proof. rewrite apply_op_book. apply book_step_ok. Qed.
@@ -111,7 +124,7 @@ Proof.
     apply dump_peer_eq; try reflexivity; try assumption. cbn -[alist_set alist_get].
     now apply alist_get_set_other.
   - apply dump_peer_eq; try reflexivity; try assumption. cbn. apply a_update_other; [exact Hq|apply Ho].
-  - apply dump_peer_eq; try reflexivity; try assumption. cbn. apply a_add_other; [exact Hq|apply Ho].
+  - apply dump_peer_eq; try reflexivity; try assumption. cbn. apply c_add_other; [exact Hq|apply Ho].
   - apply dump_peer_eq; try reflexivity; try assumption. intros k0. cbn -[meta_get meta_set].
     now apply meta_get_set_other.
   - cbn -[alist_set alist_get] in *. destruct (alist_get p (ps_keys s)); [reflexivity|]. destruct (inline_key p); [|reflexivity].
